@@ -2,9 +2,10 @@
 // cases enumerated by TLC for the BLS properties (C01-C05, C16, C17).
 //
 // A World assigns independent random scalars to the formal keys and real (tag, message) pairs to the formal messages.
-// The hash point H(m) is obtained from the library as the signature of m under the secret key 1 (there is no
-// independent hash-to-curve); everything derived from it (scalar multiples, sums, negation, + torsion, encodings)
-// is computed with the independent reference arithmetic of harness/ref.
+// The hash point H(m) is computed by the independent reference of harness/ref (own KMAC128 / SP 800-185 expander,
+// RFC 9380 simplified SWU + 11-isogeny + cofactor clearing in math/big) and cross-checked against what the library
+// signs under the secret key 1; everything derived from it (scalar multiples, sums, negation, + torsion, encodings)
+// is reference arithmetic as well.
 package blsx
 
 import (
@@ -15,8 +16,12 @@ import (
 
 	crypto "github.com/onflow/crypto"
 	"github.com/onflow/crypto/hash"
+	"verifharness/hashx"
 	"verifharness/ref"
 )
+
+// the documented signature ciphersuite: NewExpandMsgXOFKMAC128(tag) is KMAC128 with key tag || SigSuite, customizer "H2C", 128 output bytes
+const SigSuite = "BLS_SIG_BLS12381G1_XOF:KMAC128_SSWU_RO_POP_"
 
 type Violation struct {
 	Property  string `json:"property"`
@@ -66,6 +71,8 @@ type World struct {
 	hpoints map[string]ref.G1
 	one     crypto.PrivateKey
 	G2Order string // "zcash" (c1||c0) or "flow" (c0||c1): how the library writes Fp2 (finding D5), detected by probe
+	// first disagreement between the library's hash-to-curve and the reference one ("" if none)
+	H2CMismatch string
 }
 
 var frOne = append(make([]byte, 31), 1)
@@ -152,21 +159,33 @@ func (w *World) Hasher(cls string, m string) hash.Hasher {
 	return nil
 }
 
-// HashPoint: H(m) under hasher class cls, as a reference point
+// RefExpand: the 128 bytes the documented expander of class cls produces for message name m
+func (w *World) RefExpand(cls, m string) []byte {
+	md := w.Msg(m)
+	if cls == "kmac" {
+		return hashx.RefKMAC128([]byte(md.Tag+SigSuite), []byte("H2C"), md.Data, 128)
+	}
+	return (&customHasher{}).ComputeHash(md.Data)
+}
+
+// HashPoint: H(m) under hasher class cls, as a reference point: the documented hash-to-curve of the expander output,
+// computed without the library.  What the library signs under the secret key 1 must be that point; a disagreement is
+// recorded in H2CMismatch (reported under C01) and the reference point stays the oracle.
 func (w *World) HashPoint(cls, m string) ref.G1 {
 	key := cls + "/" + m
 	if p, ok := w.hpoints[key]; ok {
 		return p
 	}
+	p := ref.HashBytesToG1(w.RefExpand(cls, m))
+	w.hpoints[key] = p
 	sig, err := w.one.Sign(w.Msg(m).Data, w.Hasher(cls, m))
 	if err != nil {
 		panic(err)
 	}
-	p, err := ref.G1Decompress(sig)
-	if err != nil {
-		panic(fmt.Sprintf("library signature under sk=1 is not a canonical encoding: %x", []byte(sig)))
+	if string(sig) != string(p.Compress()) && w.H2CMismatch == "" {
+		w.H2CMismatch = fmt.Sprintf("Sign(sk = 1, hasher %s, tag %q, %d-byte message) = %x, the documented hash-to-curve of the expander output is %x",
+			cls, w.Msg(m).Tag, len(w.Msg(m).Data), []byte(sig), p.Compress())
 	}
-	w.hpoints[key] = p
 	return p
 }
 
